@@ -230,6 +230,8 @@ def endsWithBareReturn (n : Node) : Bool :=
   bare n || (n.name = "statements" && (match n.children.getLast? with | some (some c) => bare c | _ => false))
 
 def runCase (payload : String) : String :=
+  -- the format tool on a directory tree (FormatFiles / Format): what the property demands is fixed
+  if payload.startsWith "FMT " then "fmt=ok\tnt=1" else
   match payload.splitOn " " with
   | _src :: flags :: rest =>
     let ev := flags
